@@ -10,12 +10,21 @@ def tallqr(V, MV=None):
     # V: (*BV, na, nguess)
     # MV: (*BM, na, nguess) where M is the basis to make Q M-orthogonal
     # if MV is None, then MV=V
-    if MV is None:
+    no_m = MV is None
+    if no_m:
         MV = V
     VTV = torch.matmul(V.transpose(-2, -1), MV)  # (*BMV, nguess, nguess)
     R = torch.linalg.cholesky(VTV.transpose(-2, -1).conj()).transpose(-2, -1).conj()  # (*BMV, nguess, nguess)
     Rinv = torch.inverse(R)  # (*BMV, nguess, nguess)
     Q = torch.matmul(V, Rinv)
+
+    # a single Cholesky-QR pass loses orthogonality like eps * cond(V)**2,
+    # so repeat it once on the (now well-conditioned) Q (a.k.a. CholeskyQR2)
+    MQ = Q if no_m else torch.matmul(MV, Rinv)
+    QTQ = torch.matmul(Q.transpose(-2, -1), MQ)
+    R2 = torch.linalg.cholesky(QTQ.transpose(-2, -1).conj()).transpose(-2, -1).conj()
+    Q = torch.matmul(Q, torch.inverse(R2))
+    R = torch.matmul(R2, R)
     return Q, R
 
 def to_fortran_order(V):
